@@ -38,7 +38,21 @@ def shape(d):
   return '+'.join(sorted(set(parts)))
 
 
+def _value_on_group(lit, c):
+  """c is lit with a value put on a node that only groups the decisions of a multi-element space."""
+  def find(a, b):
+    if isinstance(b, tuple) and len(b) == 2 and isinstance(b[1], list) and b[1] == a and isinstance(a, list) and len(a) >= 2:
+      return True
+    if type(a) is type(b) and isinstance(a, (list, tuple)) and len(a) == len(b):
+      diff = [(x, y) for x, y in zip(a, b) if x != y]
+      return len(diff) == 1 and find(*diff[0])
+    return False
+  return find(lit, c)
+
+
 def corruption_class(lit, c):
+  if _value_on_group(lit, c):
+    return 'value-on-multi-element-space-node'
   fl, fc = D.flat(lit), D.flat(c)
   if any(isinstance(x, int) and not isinstance(x, bool) and x < 0 for x in fc):
     return 'negative-index'
@@ -232,7 +246,8 @@ def inf_item(rec, d):
         except Exception:  # pylint: disable=broad-except
           r = 'ctor'
         if r is None:
-          rec.viol(f'invalid-accepted:{how}/float-or-custom', f'{d!r}: {c!r} accepted by {how}', dict(tr, dna=c))
+          cls = 'children-under-float' if _has_float_children(c) else 'float-or-custom'
+          rec.viol(f'invalid-accepted:{how}/{cls}', f'{d!r}: {c!r} accepted by {how}', dict(tr, dna=c))
   for choices_, res, _ in choice.explore(lambda ch: rejects_or_lit(lambda: spec.random_dna(ch)), max_execs=500):
     if res == 'CAP':
       break
@@ -247,11 +262,17 @@ def inf_item(rec, d):
   rec.trans += 1
 
 
+def _has_float_children(c):
+  if isinstance(c, tuple) and len(c) == 2 and isinstance(c[0], float):
+    return True
+  return isinstance(c, (list, tuple)) and any(_has_float_children(e) for e in c)
+
+
 def corrupt_floats(x):
   out = []
   def rec_(y, rebuild):
     if isinstance(y, float):
-      for z in (y + 1.5, y - 1.5, int(y), 'a'):
+      for z in (y + 1.5, y - 1.5, int(y), 'a', (y, 1), (y, [0, 0])):      # out of range, wrong type, children under a float
         out.append(rebuild(z))
     elif isinstance(y, str):
       out.append(rebuild(1))
